@@ -773,4 +773,38 @@ def applyAll (s : Store) (h : Handle) : List SOp → Store × Handle
   | [] => (s, h)
   | op :: ops => let (s', h') := op.apply s h; applyAll s' h' ops
 
+/-! ## 11. histories: in-place edits and attribute re-assignments between two exports -/
+
+/-- what a caller can do to a grid object between `save` / `to_dict` / `clone` / `clip` calls -/
+inductive Edit (ν : Type) where
+  /-- `grid[idx] = scalar` (`_data.flat[idx] = …`, in place; `mindata/maxdata` are not applied) -/
+  | item (idx w : Nat)
+  /-- `grid.fill(scalar)` (in place) -/
+  | fill (w : Nat)
+  /-- `grid.data = rows` (the setter: shape check, `_clipdata`, fresh array) -/
+  | data (rows : List (List Nat))
+  /-- `grid.name = s` -/
+  | name (s : Str)
+  /-- `grid.comment = s` -/
+  | comment (s : Str)
+  /-- `grid.xllcorner, grid.yllcorner, grid.cellsize = …` -/
+  | georef (xll yll csz : ν)
+  /-- `grid.nodata = scalar of the grid's dtype` -/
+  | nodata (w : Nat)
+
+def applyEdit {ν : Type} (g : Grid ν) : Edit ν → Except Err (Grid ν)
+  | .item idx w => .ok { g with data := setFlat g.data idx w }
+  | .fill w => .ok { g with data := g.data.map fun r => r.map fun _ => w }
+  | .data rows => setData g rows
+  | .name s => .ok { g with name := s }
+  | .comment s => .ok { g with comment := s }
+  | .georef x y c => .ok { g with xll := x, yll := y, csz := c }
+  | .nodata w => .ok { g with nodata := w }
+
+def applyEdits {ν : Type} : Grid ν → List (Edit ν) → Except Err (Grid ν)
+  | g, [] => .ok g
+  | g, e :: es => match applyEdit g e with
+    | .error err => .error err
+    | .ok g' => applyEdits g' es
+
 end HydroVerif.C13
